@@ -32,7 +32,8 @@
 (* route as instruments whose venue names contain a same-prefix pair, a    *)
 (* mixed-case input name and a name with digits; dated contracts include   *)
 (* expiries on a year boundary (2024-12-30, 2025-12-30) whose venue symbol *)
-(* the simulated venue renders from the calendar date.  Values are abstract*)
+(* the simulated venue renders from the calendar date, and an option pair  *)
+(* with strikes 2 and 2.5 (strike rendered by the venue).  Values: abstract*)
 (* integers (the harness renders price/amount in quarter units and time in *)
 (* half seconds from a fixed epoch).                                       *)
 (*                                                                         *)
